@@ -232,6 +232,16 @@ def maxRate : List Row → Option Rat
   | [] => none
   | r :: rs => some (rs.foldl (fun m r' => max m r'.p) r.p)
 
+/-- What `fit_fss_params` returns as `params_opt[0]` (reported as `fss_params[0]`), given the value
+    `raw` that `curve_fit` returned for the best fit.  The bootstrap loop passes the *same array*
+    `params_opt` as start vector to `get_fit_params`, which overwrites entry 0 in place with the
+    midpoint of the error-rate range when it lies outside that range (`params_0[0] = (bounds[0] +
+    bounds[1]) / 2`).  With at least one bootstrap iteration the caller's array is therefore changed. -/
+def reportedPth (raw pmin pmax : Rat) (nBootstrap : Nat) : Rat :=
+  if nBootstrap = 0 then raw
+  else if pmin ≤ raw ∧ raw ≤ pmax then raw
+  else (pmin + pmax) / 2
+
 /-! ### quantiles of the bootstrap column (`np.median`, `np.quantile`, linear interpolation) -/
 
 def insertSorted (x : Rat) : List Rat → List Rat
